@@ -290,16 +290,19 @@ def walk(ctx, cirq, case, report=True):
             if calls not in (0, 1):
                 raise Unsupported('tableau measurement consumed %d random values' % calls)
             rnd = calls == 1
-            steps.append(f'SM {q} {B(op["bit"])} {tab_coq(c.tableau)} {B(out)} {B(rnd)}')
+            sm = f'SM {q} {B(op["bit"])} {tab_coq(c.tableau)} {B(out)} {B(rnd)}'
             if rnd:
                 c2, out2, _ = res[1 - op['bit']]
-                steps.append(f'SMalt {q} {B(1 - op["bit"])} {tab_coq(c2.tableau)} {B(out2)} true')
+                steps.append(f'SMalt {q} {B(1 - op["bit"])} {tab_coq(c2.tableau)} {B(out2)} true')   # from the same pre-state
+                steps.append(sm)
                 if abs(p1 - 0.5) > ATOL or out2 == out:
                     fails.append(('measure-prob', 'tableau', f'tableau measurement of qubit {q} is random (1/2, 1/2) but Born P(1) = {p1:.6f}'))
                 alt = project(psi, q, out2, n)
                 if alt is not None and stabilizer_failures(c2.tableau, alt):
                     fails.append(('stabilizer', 'measure', f'after measuring qubit {q} -> {out2} the stabilizers do not stabilize the collapsed state'))
-            elif abs((p1 if out else 1 - p1) - 1) > ATOL:
+            else:
+                steps.append(sm)
+            if not rnd and abs((p1 if out else 1 - p1) - 1) > ATOL:
                 fails.append(('measure-prob', 'tableau', f'tableau measurement of qubit {q} is deterministic {out} but Born P(1) = {p1:.6f}'))
             ctx.count('measure_branch', [case['id'], k, 't'], rnd)
             # CH form: enumerate every script of this measurement
